@@ -323,6 +323,19 @@ func runC08HTTPCmd(t *testing.T, c simrt.Chooser, o Opts) *Out {
 		out.Extra = map[string]interface{}{"late": evs}
 		out.violate("C08.early-done", sig, "argv %v: returned at %v, the last request reached an endpoint at %v, exit delay %v; late events: %v", w.Argv, cr.ReturnT, lastActivity, delay, evs)
 	}
+	// the configured timeout bounds every request: N probes on W workers take at most
+	// (N/W + 1) probe bounds (list scheduling), plus the exit delay
+	nprobes := 0
+	for _, n := range want {
+		nprobes += n
+	}
+	perProbe := timeout + 10*time.Millisecond
+	if s.Kind == "elastic" {
+		perProbe = 2*timeout + 10*time.Millisecond
+	}
+	if limit := time.Duration(nprobes/s.Workers+1)*perProbe + delay + time.Millisecond; cr.ReturnT > limit {
+		out.violate("C08.time-bound", sig, "argv %v: the scan of %d targets with %d workers took %v; with the configured timeout %v per request it can take at most %v", w.Argv, nprobes, s.Workers, cr.ReturnT, timeout, limit)
+	}
 	if len(wantRec) > 0 {
 		simrtProbe(&cr.Res, "http-endpoint-reported")
 	}
